@@ -1225,16 +1225,20 @@ void rfbShutdownServer(rfbScreenInfoPtr screen,rfbBool disconnectClients) {
     rfbClientPtr nextCl, currentCl = rfbClientIteratorNext(iter);
 
     while(currentCl) {
-      nextCl = rfbClientIteratorNext(iter);
+#ifdef LIBVNCSERVER_HAVE_LIBPTHREAD
+      /* the iterator's reference keeps currentCl alive only until the iterator moves on */
+      pthread_t currentThread = currentCl->client_thread;
+#endif
       if (currentCl->sock != RFB_INVALID_SOCKET) {
         /* we don't care about maxfd here, because the server goes away */
         rfbCloseClient(currentCl);
       }
+      nextCl = rfbClientIteratorNext(iter);
 
 #ifdef LIBVNCSERVER_HAVE_LIBPTHREAD
-    if(currentCl->screen->backgroundLoop) {
+    if(screen->backgroundLoop) {
       /* Wait for threads to finish. The thread has already been pipe-notified by rfbCloseClient() */
-      pthread_join(currentCl->client_thread, NULL);
+      pthread_join(currentThread, NULL);
     } else {
       /*
 	In threaded mode, rfbClientConnectionGone() is called by the client-to-server thread.
